@@ -664,6 +664,12 @@ def main():
         'duplicates of APDUs after such a failure are not judged here']
     ck.coq(gen=['TagSkel'], targets=['Skel/ExnCheck.vo', 'Model/Retry.vo', 'Proofs/Retry.vo', 'Gen/TagSkel.vo', 'Bridge/C16Skel.vo'],
            props='C16')
+    try:        # the extractor's own assumptions and omissions, as written into the generated file
+        import common
+        hdr = open(os.path.join(common.COQ, 'Gen', 'TagSkel.v')).read().split('*)')[0]
+        ck.assumptions += ['skeleton: ' + ln.strip()[2:] for ln in hdr.split('\n') if ln.strip().startswith('- ')]
+    except (OSError, IndexError):
+        pass
     mr = ck.model()
     quick = ck.tier == 'quick'
     sw = Sweep(ck, mr)
